@@ -25,6 +25,15 @@ import (
 
 func init() {
 	register(&stream{name: "c05.matrix", gen: genC05Matrix, run: runC05Matrix, serial: true})
+	// the same runner in a worker WITHOUT a Go memory limit (the limit makes the engine's free-memory
+	// check answer before any allocation is attempted): sizes the runtime itself refuses (> 2^48 bytes;
+	// nothing is allocated) must still come back as resource_error(memory)
+	register(&stream{name: "c05.nolimit", gen: func(*rand.Rand, int, string) []string {
+		return []string{
+			"g length 2 var huge", "g length 2 var huge2", "g functor 3 var atom huge", "g functor 3 var atom huge2",
+			"g length 2 var maxint", "g functor 3 var atom maxint",
+		}
+	}, run: runC05Matrix, serial: true})
 }
 
 // ---------------------------------------------------------------------------
@@ -64,6 +73,7 @@ var c05Shapes = []c05Shape{
 	{"int1", func(*c05Ctx) engine.Term { return engine.Integer(1) }},
 	{"int0", func(*c05Ctx) engine.Term { return engine.Integer(0) }},
 	{"huge", func(*c05Ctx) engine.Term { return engine.Integer(100000000000000) }},
+	{"huge2", func(*c05Ctx) engine.Term { return engine.Integer(1000000000000000000) }},
 	{"neg", func(*c05Ctx) engine.Term { return engine.Integer(-1) }},
 	{"minint", func(*c05Ctx) engine.Term { return engine.Integer(math.MinInt64) }},
 	{"maxint", func(*c05Ctx) engine.Term { return engine.Integer(math.MaxInt64) }},
